@@ -121,7 +121,7 @@ class ArgumentsGenerator:
 
         if isinstance(node, ListTypeNode):
             sub_annotation, used_custom_scalar = self._parse_type_node(
-                node.type, nullable
+                node.type, True
             )
             return (
                 generate_list_annotation(sub_annotation, nullable),
